@@ -1,13 +1,15 @@
 import CifModel.Lemmas.NumbLimbRead
 import CifModel.Lemmas.NumbLimbRound
 import CifModel.Lemmas.NumbToDouble
+import CifModel.Lemmas.NumbShift
+import CifModel.Lemmas.NumbWindow
 /-
   Limb level of C10, part 5: refinement of to_double — the limb-level run computes what the exact-arithmetic level
   (`toDoubleCore`) computes.
 -/
 namespace CifModel.Lemmas.NumbLimbRefine
 open CifModel.Model.Numb CifModel.Model.NumbLimbs CifModel.Lemmas.NumbLimbPass CifModel.Lemmas.NumbDigits
-  CifModel.Lemmas.NumbLimbRead CifModel.Lemmas.NumbToDouble
+  CifModel.Lemmas.NumbLimbRead CifModel.Lemmas.NumbToDouble CifModel.Lemmas.NumbShift
 
 /-- weight of the units limb: the array denotes `natOfLimbs digits / Wt` -/
 def Wt (A : Arr) (u : Nat) : Nat := Bb ^ (A.digits.length - (u + 1))
@@ -817,5 +819,95 @@ theorem limbRun_refines (A0 : Arr) (u : Nat) (rs : Int) (num0 den0 : Nat) (d : D
         simp only [Option.some.injEq] at h
         rw [← h]
         exact mant_sim u hu 62 A0 0 num0 den0 m g (by omega) hden hrel hm
+
+
+/-! ### bounds on the shift estimates -/
+
+theorem ten309_le : (10 : Nat) ^ 309 ≤ 2 ^ 1700 := by decide +kernel
+
+theorem flog2_high (un ud : Nat) (hun : 0 < un) (hud : 0 < ud) (hb : un ≤ 2 ^ 1700 * ud) : flog2Rat un ud ≤ 1700 := by
+  obtain ⟨s1, _⟩ := flog2Rat_spec un ud hun hud
+  generalize flog2Rat un ud = k at *
+  by_cases hk : 1700 < k
+  · exfalso
+    rw [P_nonneg_Q k (by omega), Nat.mul_one] at s1
+    have hP : 2 ^ 1701 ≤ P k := by
+      unfold P
+      exact Nat.pow_le_pow_right (by decide) (by omega)
+    have h1 : 2 ^ 1701 * ud ≤ P k * ud := Nat.mul_le_mul_right _ hP
+    have h2 : (2 : Nat) ^ 1701 = 2 * 2 ^ 1700 := by rw [Nat.pow_succ, Nat.mul_comm]
+    rw [h2] at h1
+    have h3 : 2 * 2 ^ 1700 * ud = 2 * (2 ^ 1700 * ud) := by grind
+    have h4 : 0 < 2 ^ 1700 * ud := Nat.mul_pos (Nat.two_pow_pos _) hud
+    omega
+  · omega
+
+/-- the bignum part of to_double: limb level = exact level -/
+theorem limbTail_refines (d0 : Nat) (rest : List Nat) (msp lsp : Int) (d : Dbl)
+    (hd0 : 1 ≤ d0) (hdig : ∀ x ∈ d0 :: rest, x ≤ 9) (hlen : ((d0 :: rest).length : Int) = msp - lsp + 1)
+    (hm1 : msp ≤ 308) (hm2 : -322 < msp)
+    (h : limbTail (d0 :: rest) msp d0 = some d) :
+    d = toDoubleCore (natOfDigits (d0 :: rest) * T lsp) (B lsp) ((d0 + 1) * T msp) (B msp) := by
+  unfold limbTail at h
+  simp only at h
+  rw [num_uniform, num_uniform, den_uniform] at h
+  have hmsp : msp = lsp + (rest.length : Int) := by simp only [List.length_cons] at hlen; omega
+  -- the value and the estimate
+  have hN := natOfDigits_cons d0 rest
+  have hrl := natOfDigits_lt rest (fun x hx => hdig x (by simp [hx]))
+  have h1 : d0 * 10 ^ rest.length ≤ natOfDigits (d0 :: rest) := by omega
+  have h2 : natOfDigits (d0 :: rest) < (d0 + 1) * 10 ^ rest.length := by
+    have : (d0 + 1) * 10 ^ rest.length = d0 * 10 ^ rest.length + 10 ^ rest.length := by grind
+    omega
+  have hNpos : 0 < natOfDigits (d0 :: rest) := by
+    have : 1 * 1 ≤ d0 * 10 ^ rest.length := Nat.mul_le_mul hd0 (Nat.pow_pos (by decide))
+    omega
+  obtain ⟨e1, e2⟩ := estimate_bounds (natOfDigits (d0 :: rest)) d0 rest.length lsp hd0 h1 h2
+  rw [← hmsp] at e1 e2
+  have hnum0 : 0 < natOfDigits (d0 :: rest) * T lsp := Nat.mul_pos hNpos (T_pos _)
+  have hun : 0 < (d0 + 1) * T msp := Nat.mul_pos (by omega) (T_pos _)
+  have hun' : 0 < d0 * T msp := Nat.mul_pos (by omega) (T_pos _)
+  have hudle : B msp ≤ 2 ^ 1700 := by
+    refine Nat.le_trans ?_ ten321_le
+    unfold B
+    exact Nat.pow_le_pow_right (by decide) (by omega)
+  have hunle : (d0 + 1) * T msp ≤ 2 ^ 1700 * B msp := by
+    have hd9 : d0 ≤ 9 := hdig d0 (by simp)
+    have hT : T msp ≤ 10 ^ 308 := by unfold T; exact Nat.pow_le_pow_right (by decide) (by omega)
+    have : (d0 + 1) * T msp ≤ 10 * 10 ^ 308 := Nat.mul_le_mul (by omega) hT
+    have e309 : (10 : Nat) * 10 ^ 308 = 10 ^ 309 := by rw [Nat.mul_comm, ← Nat.pow_succ]
+    have hb : 2 ^ 1700 * 1 ≤ 2 ^ 1700 * B msp := Nat.mul_le_mul_left _ (B_pos msp)
+    have := ten309_le
+    omega
+  have hlo1 := flog2_low _ _ hun (B_pos msp) hudle
+  have hlo2 := flog2_low _ _ hun' (B_pos msp) hudle
+  have hhi1 := flog2_high _ _ hun (B_pos msp) hunle
+  obtain ⟨_, Hhi⟩ := rsMax_bounds _ _ _ _ hnum0 (B_pos lsp) hun (B_pos msp) e1 e2
+  rw [toDoubleCore_eq]
+  generalize hrsMax : 1 + flog2Rat ((d0 + 1) * T msp) (B msp) - ((DBL_MANT_DIG : Nat) : Int) = rsMax at *
+  generalize hrsMin : 1 + flog2Rat (d0 * T msp) (B msp) - ((DBL_MANT_DIG : Nat) : Int) = rsMin at *
+  have hr1 : -1792 ≤ rsMax := by unfold DBL_MANT_DIG at hrsMax; omega
+  have hr2 : rsMax ≤ 1792 := by unfold DBL_MANT_DIG at hrsMax; omega
+  have hr3 : -1792 ≤ rsMin := by unfold DBL_MANT_DIG at hrsMin; omega
+  have hu : unitsOf msp rsMin rsMax < BIGNUM_DIGITS := by
+    unfold unitsOf BIGNUM_DIGITS DDIG_PER_DIG
+    split
+    · omega
+    · split <;> omega
+  generalize unitsOf msp rsMin rsMax = u at *
+  cases hA : initArr (d0 :: rest) u msp with
+  | none => rw [hA] at h; cases h
+  | some A0 =>
+    rw [hA] at h
+    simp only at h
+    obtain ⟨a1, a2, a3, a4, a5⟩ := initArr_spec (d0 :: rest) u msp lsp A0 hA hdig hlen hu
+    have g : Good A0 := by
+      refine ⟨a2, a1, a4, a3, ?_⟩
+      intro h0
+      unfold Rel at a5
+      rw [h0, Nat.zero_mul] at a5
+      have := Nat.mul_pos hnum0 (Wt_pos A0 u)
+      omega
+    exact limbRun_refines A0 u rsMax _ _ d g hu (B_pos lsp) a5 hr1 hr2 Hhi h
 
 end CifModel.Lemmas.NumbLimbRefine
